@@ -36,6 +36,13 @@ def main():
         print('INCONCLUSIVE: cannot obtain the MIR of the current tree: %s' % e)
         return 2
     insts = mod.instances(tier, seed)
+    try:
+        common.replay_bin()          # built before the workers fork: path witnesses are cross-validated natively inside them
+        if prop in ('C02', 'C03', 'C09', 'C10', 'C13', 'C18'):
+            common.replay_bin(small=True)
+    except engine.Inconclusive as e:
+        print('INCONCLUSIVE: %s' % e)
+        return 2
     import random
     random.Random(seed).shuffle(insts)
     results = engine.pmap('props.' + prop.lower(), 'run_instance', insts)
